@@ -167,6 +167,12 @@ def main():
                 out.append('?')
         return out
 
+    def owner(a):
+        # the array that owns the memory (seq[idx, cols] holds a column view of its parent's buffer)
+        while isinstance(a.base, np.ndarray):
+            a = a.base
+        return id(a)
+
     def observe(seqs):
         canon = {}
         parts = []
@@ -174,7 +180,7 @@ def main():
         for i, s in enumerate(seqs):
             if s is None:
                 continue
-            k = canon.setdefault(id(s._data), len(canon))
+            k = canon.setdefault(owner(s._data), len(canon))
             els = [rows_of(x) for x in s]          # copied out immediately
             parts.append(f'{i}@{k}=' + ('-' if not els else '/'.join(enc_elem(e) for e in els)))
             lay.append(f'{i}={k},{int(bool(s._is_view))}:' +
@@ -311,6 +317,35 @@ def main():
                     seqs.append(concatenate([seqs[int(p[0])] for p in pairs], axis=0))
                 elif o == 'drop':
                     seqs[int(f[1])] = None
+                elif o == 'appbad':
+                    # a non-empty element whose trailing shape does not match (nor broadcast)
+                    if len(f) > 2 and f[2] == 'b':       # a shape NumPy would broadcast silently: (1, 1, ...)
+                        bad = np.full((1, 1) + cs[1:], 7, dtype=dt(8 * nrow))
+                    else:
+                        bad = np.zeros((1, cs[0] + 3) + cs[1:], dtype=dt(8 * nrow))
+                    seqs[int(f[1])].append(bad)
+                    del bad
+                elif o == 'shrink':
+                    seqs[int(f[1])].shrink_data()
+                elif o == 'gett':
+                    seqs.append(seqs[int(f[1])][index(f[2]), int(f[3]):int(f[4])])
+                elif o == 'cat1':
+                    ops_ = [seqs[int(j)] for j in f[1].split(',')]
+                    flags = ''.join(
+                        '1' if (int(t._data.shape[0]) == int(np.sum(t._lengths)) and
+                                [int(x) for x in t._offsets] == [int(x) for x in np.cumsum([0] + [int(y) for y in t._lengths])[:-1]])
+                        else '0' for t in ops_)
+                    try:
+                        want = [np.concatenate([np.asarray(t[k]) for t in ops_], axis=1) for k in range(len(ops_[0]))]
+                        r = concatenate(ops_, axis=1)
+                        got = [np.asarray(x) for x in r]
+                        good = len(got) == len(want) and all(a.shape == b.shape and np.array_equal(a, b)
+                                                             for a, b in zip(got, want))
+                        res = ('ok:good' if good else 'ok:bad') + '|c=' + flags
+                        del r, got, want
+                    except ValueError:
+                        res = 'err:Value|c=' + flags
+                    del ops_
                 else:
                     res = 'err:BadOp'
             except IndexError:
